@@ -128,7 +128,7 @@ pub const C40: Check = Check {
     id: "C40",
     level: "exploration",
     rule: "histories on one cache in which publication points appear, disappear from their parent's manifest, expire (virtual clock \
-           past the manifest EE notAfter) and move to another rsync module, with 'dirty' on and off and with successful and \
+           past the manifest EE notAfter, or only past the manifest's nextUpdate while its certificate is still valid) and move to another rsync module, with 'dirty' on and off and with successful and \
            failed runs (forced failure at entry; natural fatal failure by planting a directory where a stored file is expected). \
            Observed: the set of files under the cache directory before and after every run. Oracle (existence before AND still \
            needed => existence after): after a successful run every stored point that existed before and whose manifest EE has not \
@@ -174,7 +174,13 @@ fn run_c40(ctx: &mut Ctx, rep: &mut Report) {
         let params = GenParams { tals: 1, max_cas: 3 + rng.usize(5), max_depth: 1 + rng.usize(2), max_objects: 1 + rng.usize(3), repos: 2, ..GenParams::default() };
         let mut w = generate(&mut rng, t0, &params);
         // manifest EE lifetimes: some short (expire during the history), most long
-        for c in 0..w.cas.len() { w.cas[c].mft_ee_na = if rng.chance(1, 3) { t0 + 3 * 3600 } else { t0 + 30 * DAY }; w.cas[c].mft_next = w.cas[c].mft_ee_na.min(t0 + 5 * DAY); w.cas[c].crl_next = t0 + 5 * DAY; }
+        for c in 0..w.cas.len() {
+            w.cas[c].mft_ee_na = if rng.chance(1, 3) { t0 + 3 * 3600 } else { t0 + 30 * DAY };
+            w.cas[c].mft_next = w.cas[c].mft_ee_na.min(t0 + 5 * DAY); w.cas[c].crl_next = t0 + 5 * DAY;
+            // some long-lived manifest certificates carry a manifest whose nextUpdate passes during the history (stale is
+            // accepted here): the stored point stays needed until the certificate expires, not until nextUpdate
+            if w.cas[c].mft_ee_na > t0 + DAY && rng.chance(1, 3) { w.cas[c].mft_next = t0 + 3600; w.cas[c].crl_next = t0 + 3600; }
+        }
         let dirty = rng.chance(1, 3);
         let pol = Policy { stale: Filter::Accept, ..Policy::default() };
         let mut env = Env::new(&ctx.scratch.join("env"));
